@@ -536,8 +536,8 @@ def random_history(rng, length):
     """Seeded history biased towards applicable operations (DESIGN 5.5.3 (ii)); tracks a rough picture of its own objects."""
     ops = []
     objs = []          # [type name] per offset; may be destroyed - the generator does not care much
-    masks = [FULL, FULL, FULL, 0, BIT['ENCRYPT'] | BIT['DECRYPT'], BIT['SIGN'] | BIT['VERIFY'], BIT['MAC_GENERATE'] | BIT['WRAP_KEY'],
-             FULL & ~BIT['DERIVE_KEY'], BIT['DERIVE_KEY']]
+    masks = ([FULL] * 6 + [0, BIT['ENCRYPT'] | BIT['DECRYPT'], BIT['SIGN'] | BIT['VERIFY'], BIT['MAC_GENERATE'] | BIT['WRAP_KEY']]
+             + [b for b in BIT.values()] + [FULL & ~b for b in BIT.values()])
 
     def pick():
         if not objs or rng.random() < 0.04:
